@@ -639,6 +639,11 @@ func (w *World) VerifyFunc(fn *ssa.Function) *VC {
 			f.fail("uses lemma %s: %v", ln, err)
 		}
 	}
+	for _, uc := range fc.UseCalls {
+		if err := w.assumeLemmaInstance(vc, pre, uc, True); err != nil {
+			f.fail("uses %s: %v", uc.Src, err)
+		}
+	}
 	// vacuity guard: the precondition must be satisfiable
 	if len(ec.requires) > 0 {
 		cov := vc.Oblige(label, "cover", "entry", True, True, "precondition is satisfiable")
@@ -884,6 +889,61 @@ func (w *World) lemmaStatement(vc *VC, lm *Lemma) (Term, error) {
 	return Forall(vars, Implies(And(req...), And(ens...)), pats...), nil
 }
 
+// assumeLemmaInstance assumes requires ⇒ ensures of a lemma for the given
+// argument expressions (evaluated in env). Lemmas are proved separately, so an
+// instance is a valid fact wherever it is stated.
+func (w *World) assumeLemmaInstance(vc *VC, env *SpecEnv, call Clause, pc Term) error {
+	c, ok := call.E.(ECall)
+	if !ok {
+		return fmt.Errorf("expected lemma(args)")
+	}
+	lm := w.C.Lemmas[c.Fun]
+	if lm == nil {
+		return fmt.Errorf("unknown lemma %s", c.Fun)
+	}
+	if len(c.Args) != len(lm.Params) {
+		return fmt.Errorf("lemma %s takes %d arguments", c.Fun, len(lm.Params))
+	}
+	if vc.lemmasUsed == nil {
+		vc.lemmasUsed = map[string]bool{}
+	}
+	vc.lemmasUsed[c.Fun] = true
+	inst := &SpecEnv{W: w, Vars: map[string]SVal{}, Heap: env.Heap, Old: env.Old, Scope: lm.ScopePkg, Side: vc}
+	for i, p := range lm.Params {
+		v, err := env.Eval(c.Args[i])
+		if err != nil {
+			return err
+		}
+		v = env.value(v)
+		so, _, err := w.specSort(p.Type, lm.ScopePkg)
+		if err != nil {
+			return err
+		}
+		if v.T.Sort != so {
+			return fmt.Errorf("lemma %s: argument %d has sort %s, want %s", c.Fun, i, v.T.Sort, so)
+		}
+		inst.Vars[p.Name] = v
+	}
+	var req, ens []Term
+	for _, r := range lm.Requires {
+		t, err := inst.EvalBool(r)
+		if err != nil {
+			return err
+		}
+		req = append(req, t)
+	}
+	for _, e := range lm.Ensures {
+		t, err := inst.EvalBool(e)
+		if err != nil {
+			return err
+		}
+		ens = append(ens, t)
+	}
+	vc.Comment("lemma instance " + call.Src)
+	vc.Assume(Implies(pc, Implies(And(req...), And(ens...))))
+	return nil
+}
+
 func (w *World) assumeLemma(vc *VC, name string) error {
 	lm := w.C.Lemmas[name]
 	if lm == nil {
@@ -893,6 +953,10 @@ func (w *World) assumeLemma(vc *VC, name string) error {
 	if err != nil {
 		return err
 	}
+	if vc.lemmasUsed == nil {
+		vc.lemmasUsed = map[string]bool{}
+	}
+	vc.lemmasUsed[name] = true
 	vc.Comment("lemma " + name)
 	vc.Assume(st)
 	return nil
